@@ -26,7 +26,9 @@ CONSTANTS Sigma,     \* alphabet of class symbols
           Mids, Paths, Queries, Frags,   \* component alternatives for longer, structured bodies
           Pfx,       \* prefix table: set of [txt, ok, method]
           Bases,     \* accepted DID URLs (as rows) used as bases of setter rows
-          SegLen     \* setter segments up to this length
+          SegLen,    \* setter segments up to this length
+          LongLen,   \* 0, or the length of additional bodies over the reduced alphabet SigmaLong
+          SigmaLong
 
 VARIABLES row, out
 vars == <<row, out>>
@@ -102,7 +104,10 @@ PctTails == {<<>>} \cup {<<c>> : c \in Sigma} \cup {<<"%", "g", "1">>, <<"%", "1
 PctSegs == {lead \o <<"%", "1", "f">> \o tl : lead \in {<<>>, <<"/">>, <<"?">>, <<"#">>}, tl \in PctTails}
 PctBodies == {<<"g">> \o sg \o rest : sg \in PctSegs, rest \in {<<>>, <<"#", "g">>}}
 
-UrlRows == [kind : {"url"}, pfx : {GoodPfx}, body : Strs(MaxLen) \cup Structured \cup PctBodies]
+\* longer bodies over a reduced alphabet (TLC cannot build sets of more than 10^6 elements: 18^5 is too many)
+LongBodies == IF LongLen = 0 THEN {} ELSE [1..LongLen -> SigmaLong]
+
+UrlRows == [kind : {"url"}, pfx : {GoodPfx}, body : Strs(MaxLen) \cup Structured \cup PctBodies \cup LongBodies]
            \cup [kind : {"url"}, pfx : Pfx, body : {<<"g">>, <<"g", "#", "g">>, <<>>}]
 SetRows == [kind : {"set"}, base : Bases, which : {"path", "query", "fragment", "method_name", "method_id", "join"}, seg : Strs(SegLen) \cup PctSegs]
 
